@@ -149,6 +149,14 @@ class ClassV(Val):
         self.ci = ci
 
 
+class LambdaV(Sym):
+    """A lambda expression: renders as its source text (like any opaque symbol) but can be applied when it is called by name."""
+    def __init__(self, text, fi, closure_env):
+        Sym.__init__(self, text)
+        self.fi = fi
+        self.closure_env = closure_env
+
+
 # --------------------------------------------------------------------------------------------- rendering
 def _hex(b):
     return ''.join('%02x' % c for c in b)
@@ -548,6 +556,8 @@ class Interp(object):
         self.resolved_calls = 0
         self.notes = []
 
+    frame_cls = None     # hook: a rule may substitute a Frame subclass (e.g. path-exact loops) for the top-level function
+
     # ------------------------------------------------------------------ entry
     def run(self, fi, self_val=None, args=None, depth=0):
         """Interpret function `fi`.  Returns list of final States (one per path)."""
@@ -584,7 +594,7 @@ class Interp(object):
         if depth == 0:
             for k, v in self.sc.bind.items():
                 st.env[k] = v
-        frame = Frame(self, fi, depth)
+        frame = (self.frame_cls or Frame)(self, fi, depth)
         outs = frame.block(node.body, st)
         finals = []
         for s, status in outs:
@@ -728,7 +738,8 @@ class Frame(object):
             v = self.add(cur, rhs)
         elif isinstance(node.op, ast.BitOr) and isinstance(node.target, ast.Name) and \
                 not (isinstance(cur, Const) and isinstance(rhs, Const)):
-            v = Sym('(%s | %s)' % (render(cur), render(rhs)))
+            v = Sym('(%s | %s)' % (render(cur), render(rhs)), types=self._or_types(cur))
+            v.or_self = v.types is not None
             st.events.append(('ior', render(cur), render(rhs), node.lineno))
         else:
             v = self.binop(node.op, cur, rhs)
@@ -848,10 +859,20 @@ class Frame(object):
             outs = fin
         return outs
 
-    def _iter_values(self, node, st, bname=None):
+    def _iter_values(self, node, st, bname=None, target=None):
         """Return a list of Vals if the iterable is statically enumerable, else None."""
         itv = self.ev(node, st)
         t = render(itv)
+        self._fuse = None
+        if isinstance(itv, EachV) and len(itv.elems) == 1 and isinstance(itv.elems[0], Sym) and itv.elems[0].text != itv.var \
+                and bname is not None and isinstance(target, ast.Name):
+            # iterating a mapping / projecting comprehension `(E(v) for v in coll if c)` is iterating coll (with the filter)
+            # with the loop variable bound to E(v): `for x in (g for k, g in coll if c)` = `for k, g in coll: if c: x = g`
+            roots = set(re.findall(r'\$[\d.]+', itv.var))
+            if len(roots) == 1 and (itv.var in roots or re.match(r'^\((%s_\d+(, )?)+\)$' % re.escape(next(iter(roots))), itv.var)):
+                pat = re.escape(next(iter(roots))) + r'(?!\d)(?!\.\d)'
+                self._fuse = (re.sub(pat, bname, itv.var), Sym(re.sub(pat, bname, itv.elems[0].text), nonnull=True))
+                return None, re.sub(pat, bname, itv.coll)
         if isinstance(itv, EachV) and len(itv.elems) == 1 and isinstance(itv.elems[0], Sym) and itv.elems[0].text == itv.var \
                 and bname is not None and re.match(r'^\$[\d.]+$', itv.var):
             # iterating a (filtered) identity comprehension is iterating the underlying collection (with the filter)
@@ -863,12 +884,12 @@ class Frame(object):
             if any(isinstance(e, Sym) and e.text.startswith('*') for e in itv.elems):
                 return None, t          # (a, *rest): the starred part has unknown length - summarise
             return itv.elems, t
-        if isinstance(itv, Const) and isinstance(itv.value, (tuple, list)) and len(itv.value) <= 12:
+        if isinstance(itv, Const) and isinstance(itv.value, (tuple, list, bytes, bytearray)) and len(itv.value) <= 12:
             return [Const(x) for x in itv.value], t
         return None, t
 
     def st_For(self, node, st):
-        vals, colltext = self._iter_values(node.iter, st, self._bname(node))
+        vals, colltext = self._iter_values(node.iter, st, self._bname(node), node.target)
         if vals is not None and isinstance(node.target, (ast.Tuple, ast.List)) and any(isinstance(v, EachV) for v in vals):
             vals = None     # a summarised segment of unknown length cannot be destructured element-wise: summarise this loop too
         if vals is not None:
@@ -900,7 +921,46 @@ class Frame(object):
         d = self.decide(node.test, st)
         if d is False:
             return self.block(node.orelse, st)
+        if d is True:
+            r = self._unroll_counted_while(node, st)
+            if r is not None:
+                return r
         return self._summarise_loop(node, st, 'while ' + self.text(node.test, st), '_', None)
+
+    def _unroll_counted_while(self, node, st, limit=512):
+        """A while loop whose test reads only locals that hold integer constants (a counter) is followed iteration by iteration, as
+        long as every iteration has one path and the test stays decided; otherwise None (the caller summarises the loop as before)."""
+        names = [n.id for n in ast.walk(node.test) if isinstance(n, ast.Name)]
+        if not names or not all(isinstance(st.env.get(n), Const) and type(st.env[n].value) in (int, bool) for n in names):
+            return None
+        cur = st.fork()
+        for _ in range(limit):
+            d = self.decide(node.test, cur)
+            if d is False:
+                outs = self.block(node.orelse, cur)
+                break
+            if d is not True:
+                return None
+            outs = self.block(node.body, cur)
+            if len(outs) != 1:
+                return None
+            cur, status = outs[0]
+            if status == 'break':
+                outs = [(cur, 'normal')]
+                break
+            if status in ('return', 'raise'):
+                break
+        else:
+            return None
+        # the walk happened on a copy: adopt its result as this path's state
+        final = []
+        for s2, status in outs:
+            if s2 is cur:
+                st.__dict__.update(s2.__dict__)
+                final.append((st, status))
+            else:
+                final.append((s2, status))
+        return final
 
     def _bname(self, node):
         k = self.bindex.get(id(node), 0)
@@ -908,15 +968,35 @@ class Frame(object):
 
     def _summarise_loop(self, node, st, colltext, vartext, target):
         before = st.fork()
+        fuse, self._fuse = getattr(self, '_fuse', None), None
         if target is not None:
-            vartext = self._assign_loopvars(target, st, node, self._bname(node))
+            if fuse is not None and isinstance(target, ast.Name):
+                vartext = fuse[0]
+                st.env[target.id] = fuse[1]
+            else:
+                vartext = self._assign_loopvars(target, st, node, self._bname(node))
             st.bound[self._bname(node)] = colltext.split(' if ')[0]       # the collection; a fused filter stays in the EACH text
             if ' if ' in colltext:
                 st.filters[self._bname(node)] = colltext.split(' if ', 1)[1]
         nyield = len(st.yields)
         body = self.block(node.body, st)
+        if getattr(self.sc, 'loop_observer', None) is not None:
+            # rules that reason about one iteration (which paths skip / attach / file) see the paths before they are merged
+            self.sc.loop_observer(self, node, colltext, vartext, before, body)
         outs = []
         normal = [s for s, status in body if status in ('normal', 'continue', 'break')]
+        statuses = [status for s, status in body if status in ('normal', 'continue', 'break')]
+        nfacts = len(before.facts)
+
+        def skip_filter(contributes):
+            """Paths of one iteration that add nothing to an accumulator only skip the element: `if c: continue` before the
+            append, a guarding `if`, and a filtered comprehension all denote EACH(v in coll if <cond>; delta).  Returns the
+            ' if <cond>' suffix for the paths that do contribute, '' when every path does, None when it cannot be expressed."""
+            if all(contributes):
+                return ''
+            if any(stt == 'break' for stt, c in zip(statuses, contributes) if not c):
+                return None                       # leaving the loop is not a filter
+            return path_filter([s.facts[nfacts:] for s, c in zip(normal, contributes) if c])
         for s, status in body:
             if status in ('return', 'raise'):
                 s.facts.append(('in loop over %s' % colltext, True, None))
@@ -942,16 +1022,49 @@ class Frame(object):
                         uniq.append(d)
                 if uniq == [[]]:
                     continue
+                filt = ''
+                if len(uniq) == 2 and [] in uniq:
+                    filt = skip_filter([d != [] for d in deltas])
+                    if filt is None:
+                        filt = ''
+                    else:
+                        uniq = [d for d in uniq if d != []]
                 inner = uniq[0] if len(uniq) == 1 else [('ALT', uniq)]
                 cls = type(old)
                 if cls is Bytes:
-                    base.env[name] = Bytes(old.items + [('EACH', vartext, colltext, inner)])
+                    base.env[name] = Bytes(old.items + [('EACH', vartext, colltext + filt, inner)])
                 else:
-                    base.env[name] = Hasher(old.alg, old.items + [('EACH', vartext, colltext, inner)])
+                    base.env[name] = Hasher(old.alg, old.items + [('EACH', vartext, colltext + filt, inner)])
             elif isinstance(old, ListV):
+                grown = []
+                for s in normal:
+                    new = s.env.get(name)
+                    grown.append(new.elems[len(old.elems):] if isinstance(new, ListV) and len(new.elems) > len(old.elems) else [])
+                keys = [[render(e) for e in g] for g in grown]
+                uniq = []
+                for k in keys:
+                    if k not in uniq:
+                        uniq.append(k)
+                if len(uniq) == 2 and [] in uniq:
+                    filt = skip_filter([k != [] for k in keys])
+                    if filt is not None:
+                        g = next(g for g in grown if g)
+                        base.env[name] = ListV(old.elems + [EachV(vartext, colltext + filt, g)], old.kind)
+                        continue
                 new = base.env.get(name)
                 if isinstance(new, ListV) and len(new.elems) > len(old.elems):
                     base.env[name] = ListV(old.elems + [EachV(vartext, colltext, new.elems[len(old.elems):])], old.kind)
+            elif isinstance(old, Const) and type(old.value) is int and target is not None and ' if ' not in colltext and \
+                    len(body) == 1 and body[0][1] == 'normal' and render(base.env.get(name)) == '(%d + %s)' % (old.value, vartext):
+                # acc = k; for x in C: acc += x   is   k + sum(C)
+                base.env[name] = Sym('sum(%s)' % colltext) if old.value == 0 else Sym('(%d + sum(%s))' % (old.value, colltext))
+            elif isinstance(old, Const) and isinstance(old.value, str) and target is not None:
+                # text accumulated in a loop (s += piece): s + ''.join(piece for ...), if every path of the body appends the same piece
+                pre = '(%s + ' % render(old)
+                news = set(render(s.env.get(name)) if s.env.get(name) is not None else None for s in normal)
+                new = base.env.get(name)
+                if len(news) == 1 and isinstance(new, Sym) and new.text.startswith(pre) and new.text.endswith(')') and _balanced(new.text[len(pre):-1]):
+                    base.env[name] = Sym("(%s + ''.join(EACH(%s in %s;%s)))" % (render(old), vartext, colltext, new.text[len(pre):-1]))
         # yields inside the loop
         ys = []
         for s in normal:
@@ -959,8 +1072,15 @@ class Frame(object):
             if y not in ys:
                 ys.append(y)
         if ys and ys != [[]]:
+            filt = ''
+            if len(ys) == 2 and [] in ys:
+                filt = skip_filter([bool(s.yields[nyield:]) for s in normal])
+                if filt is None:
+                    filt = ''
+                else:
+                    ys = [y for y in ys if y]
             inner = ' '.join(ys[0]) if len(ys) == 1 else 'ALT(%s)' % ' | '.join(' '.join(y) for y in ys)
-            base.yields = base.yields[:nyield] + [Sym('EACH(%s in %s;%s)' % (vartext, colltext, inner))]
+            base.yields = base.yields[:nyield] + [Sym('EACH(%s in %s;%s)' % (vartext, colltext + filt, inner))]
         # calls / stores of all normal paths are kept (union, order of first path first)
         for s in normal[1:]:
             for c in s.calls:
@@ -1055,6 +1175,9 @@ class Frame(object):
         if isinstance(test, ast.Compare) and len(test.ops) == 1:
             return ('cmp', OPS[type(test.ops[0])], self.text(test.left, st), self.text(test.comparators[0], st))
         if isinstance(test, ast.Call):
+            sk = getattr(self.ev(test, st, quiet=True), 'skel', None)
+            if sk is not None:           # an inlined helper returning a comparison / a boolean combination
+                return sk
             ft = self.text(test.func, st)
             args = [self.text(a, st) for a in test.args]
             return ('call', ft, args)
@@ -1256,6 +1379,16 @@ class Frame(object):
             if f is not None:
                 return Sym(path, cls=None)
             return Sym(path)
+        if node.attr == '__contains__' and isinstance(base, ListV) and base.elems and all(isinstance(e, Const) for e in base.elems):
+            try:        # the bound method of a literal collection is the predicate `x in <collection>`
+                lam = ast.parse('lambda _x: _x in %s' % bt, mode='eval').body
+                ast.copy_location(lam, node)
+                ast.fix_missing_locations(lam)
+                v = self.ev_Lambda(lam, st)
+                v.text = path
+                return v
+            except SyntaxError:
+                pass
         if node.attr == 'hasher':
             return Hasher(bt)
         cls = base.cls if isinstance(base, (Sym, Obj)) else None
@@ -1304,7 +1437,13 @@ class Frame(object):
         if owner is None:
             return None
         fr = Frame(self.I, FunctionInfo(ast.parse('def _f(): pass').body[0], owner.module, owner), self.depth)
-        elems = [fr.ev(e, State()) for e in inner.elts]
+        st0 = State()
+        for k, v in owner.attrs.items():          # other literal constants of the class body are in scope there
+            try:
+                st0.env[k] = Const(ast.literal_eval(v))
+            except Exception:
+                pass
+        elems = [fr.ev(e, st0) for e in inner.elts]
         if not all(isinstance(e, Const) for e in elems):
             return None
         return ListV(elems, 'set' if isinstance(inner, ast.Set) else 'tuple')
@@ -1318,19 +1457,18 @@ class Frame(object):
         return False
 
     def ev_JoinedStr(self, node, st):
-        parts = []
-        for v in node.values:          # an f-string whose fields are all decided strings is that string; otherwise opaque as before
-            if isinstance(v, ast.Constant) and isinstance(v.value, str):
-                parts.append(v.value)
-                continue
-            x = None
-            if isinstance(v, ast.FormattedValue) and v.conversion == -1 and \
-                    (v.format_spec is None or ast.unparse(v.format_spec) in ("f''", "f's'")):
-                x = self.ev(v.value, st, quiet=True)
-            if not (isinstance(x, Const) and isinstance(x.value, str)):
+        # f'a{x!r:>4}b' is the value 'a{!r:>4}b'.format(x): one spelling, with the interpolated values rendered like any other
+        tmpl, args = '', []
+        for v in node.values:
+            if isinstance(v, ast.Constant):
+                tmpl += str(v.value).replace('{', '{{').replace('}', '}}')
+            elif isinstance(v, ast.FormattedValue) and (v.format_spec is None or all(isinstance(x, ast.Constant) for x in v.format_spec.values)):
+                spec = '' if v.format_spec is None else ''.join(str(x.value) for x in v.format_spec.values)
+                tmpl += '{%s%s}' % ('!' + chr(v.conversion) if v.conversion and v.conversion > 0 else '', ':' + spec if spec else '')
+                args.append(self.ev(v.value, st))
+            else:
                 return Sym(ast.unparse(node))
-            parts.append(x.value)
-        return Const(''.join(parts))
+        return Sym('%r.format(%s)' % (tmpl, ', '.join(render(a) for a in args)))
 
     def ev_Tuple(self, node, st):
         return ListV([self.ev(e, st) for e in node.elts], 'tuple')
@@ -1354,7 +1492,13 @@ class Frame(object):
         return Sym('*' + self.text(node.value, st))
 
     def ev_Lambda(self, node, st):
-        return Sym(ast.unparse(node))
+        try:
+            fd = ast.FunctionDef(name='<lambda>', args=node.args, body=[ast.Return(value=node.body)], decorator_list=[], returns=None, type_params=[])
+            ast.copy_location(fd, node)
+            ast.fix_missing_locations(fd)
+            return LambdaV(ast.unparse(node), FunctionInfo(fd, self.module, None, outer=self.fi), st.env)
+        except Exception:       # pragma: no cover
+            return Sym(ast.unparse(node))
 
     def _map_known(self, node, st):
         """[f(x) for x in L] with L a known list: map element-wise (EachV elements are mapped inside)."""
@@ -1387,8 +1531,13 @@ class Frame(object):
         s2 = st.fork()
         gens = []
         for g in node.generators:
-            it = self._iter_values(g.iter, s2, self._bname(g))[1]
-            vt = self._assign_loopvars(g.target, s2, node, self._bname(g))
+            it = self._iter_values(g.iter, s2, self._bname(g), g.target)[1]
+            fuse, self._fuse = self._fuse, None
+            if fuse is not None:
+                vt = fuse[0]
+                s2.env[g.target.id] = fuse[1]
+            else:
+                vt = self._assign_loopvars(g.target, s2, node, self._bname(g))
             st.bound[self._bname(g)] = it.split(' if ')[0]
             s2.bound[self._bname(g)] = it.split(' if ')[0]
             conds = []
@@ -1509,7 +1658,27 @@ class Frame(object):
         r = self.ev(node.right, st)
         if isinstance(node.op, ast.Add):
             return self.add(l, r)
-        return self.binop(node.op, l, r)
+        v = self.binop(node.op, l, r)
+        if isinstance(node.op, ast.BitOr) and isinstance(v, Sym) and v.types is None:
+            v.types = self._or_types(l)
+            v.or_self = v.types is not None
+        return v
+
+    def _or_types(self, left):
+        """Type tags of `left | x` when left is an object of a repo class whose __or__ returns its receiver on every returning
+        path (the composition idiom `obj |= part`): the result is that object, so isinstance tests on it are decidable."""
+        if isinstance(left, Sym) and left.types is not None and getattr(left, 'or_self', False):
+            return left.types
+        cls = left.cls if isinstance(left, (Sym, Obj)) else None
+        if cls is None:
+            return None
+        fi = cls.find_method('__or__')
+        if fi is None or not fi.params:
+            return None
+        rets = [n for n in _preorder(fi.node) if isinstance(n, ast.Return)]
+        if not rets or not all(isinstance(n.value, ast.Name) and n.value.id == fi.params[0] for n in rets):
+            return None
+        return {cls.name}
 
     def add(self, l, r):
         if isinstance(l, Bytes) or isinstance(r, Bytes):
@@ -1550,6 +1719,16 @@ class Frame(object):
         path = '%s[%s]' % (render(base), self._slice_text(sl, st))
         if path in st.env:
             return st.env[path]
+        if isinstance(base, Const) and isinstance(base.value, (tuple, str, bytes, bytearray)):
+            # constant folding: a literal sequence indexed / sliced by literals
+            parts = [sl.lower, sl.upper, sl.step] if isinstance(sl, ast.Slice) else [sl]
+            vals = [None if x is None else self.ev(x, st) for x in parts]
+            if all(v is None or (isinstance(v, Const) and (v.value is None or type(v.value) is int)) for v in vals):
+                nums = [None if v is None else v.value for v in vals]
+                try:
+                    return Const(base.value[slice(*nums)] if isinstance(sl, ast.Slice) else base.value[nums[0]])
+                except (IndexError, TypeError, ValueError):
+                    pass
         if isinstance(sl, ast.Slice):
             lo = self.text(sl.lower, st) if sl.lower is not None else ''
             if lo == '0':
@@ -1604,6 +1783,16 @@ class Frame(object):
 
     # ------------------------------------------------------------------ calls
     def ev_Call(self, node, st):
+        r = self._ev_Call(node, st)
+        if type(r) is Sym and not node.keywords and getattr(r, 'skel', None) is None:
+            for c in reversed(st.calls):
+                if c[4] is node:
+                    if r.text == '%s(%s)' % (c[0], ', '.join(c[1])):
+                        r.skel = ('call', c[0], list(c[1]))
+                    break
+        return r
+
+    def _ev_Call(self, node, st):
         func = node.func
         args = [self.ev(a, st) for a in node.args]
         kwargs = {}
@@ -1620,6 +1809,11 @@ class Frame(object):
                 if exc:
                     raise CallRaises(exc)
 
+        # ---- operator.itemgetter(k1, k2..)(d) is (d[k1], d[k2]..)
+        if isinstance(func, ast.Call) and dotted(func.func) in ('operator.itemgetter', 'itemgetter') and func.args and len(node.args) == 1 and \
+                not node.keywords and not func.keywords:
+            items = [self.ev(ast.copy_location(ast.Subscript(value=node.args[0], slice=k, ctx=ast.Load()), node), st) for k in func.args]
+            return items[0] if len(items) == 1 else ListV(items, 'tuple')
         # ---- method calls on interpreted values
         if isinstance(func, ast.Attribute):
             recv = self.ev(func.value, st)
@@ -1663,8 +1857,8 @@ class Frame(object):
                     recv.elems.append(args[0])
                     record(ftext)
                     return Const(None)
-                if meth == 'extend' and len(args) == 1 and isinstance(args[0], ListV):
-                    recv.elems.extend(args[0].elems)
+                if meth == 'extend' and len(args) == 1 and isinstance(args[0], (ListV, EachV)):
+                    recv.elems.extend(args[0].elems if isinstance(args[0], ListV) else [args[0]])     # extend(genexp) == the append loop
                     record(ftext)
                     return Const(None)
                 if meth == 'insert' and len(args) == 2 and isinstance(args[0], Const) and isinstance(args[0].value, int) and \
@@ -1757,13 +1951,15 @@ class Frame(object):
                         return r
                     return Sym('%s.%s(%s)' % (render(recv), meth, self._argtext(args, kwargs)))
             record(ftext)
+            if meth == 'get' and len(args) in (1, 2) and not kwargs and '%s[%s]' % (render(recv), render(args[0])) in st.env:
+                return st.env['%s[%s]' % (render(recv), render(args[0]))]          # d.get(k) of an entry the scenario / path knows
             return self._opaque_call(ftext, args, kwargs, recv, meth)
 
         # ---- plain names
         if isinstance(func, ast.Name):
             n = func.id
             callee = st.env.get(n)
-            if isinstance(callee, FuncV):
+            if isinstance(callee, (FuncV, LambdaV)):
                 record(n)
                 r = self._maybe_inline(callee.fi, None, args, kwargs, st, node, closure=callee.closure_env, force=True)
                 if r is not None:
@@ -1773,8 +1969,8 @@ class Frame(object):
                 # a local (not a parameter such as `cls`) bound to a class (k = A if c else B; k()): the call constructs that class
                 record(callee.ci.name)
                 return self._construct(callee.ci, args, kwargs, st, node)
-            if isinstance(callee, Sym) and n not in self.fi.params:
-                # a local that holds an opaque callable: the call is a call of that value (locals are propagated by value)
+            if isinstance(callee, Sym) and callee.text != n and re.match(r'^[\w.()]+$', callee.text):
+                # a local that holds a callable value (bound method, function reference): the call is a call of that value
                 record(callee.text)
                 return Sym('%s(%s)' % (callee.text, self._argtext(args, kwargs)))
             if n in ('bytearray', 'bytes'):
@@ -1804,6 +2000,8 @@ class Frame(object):
                         return Const(sum(len(i[1]) for i in its))
                 if isinstance(a, ListV):
                     return Const(len(a.elems))
+                if isinstance(a, Const) and isinstance(a.value, (bytes, bytearray, str, tuple, list)):
+                    return Const(len(a.value))
                 lcls = a.cls if isinstance(a, (Sym, Obj)) else None
                 lfi = lcls.find_method('__len__') if lcls is not None else None
                 if lfi is not None and self.sc.inline is not None and self.sc.inline(lfi):
@@ -1811,6 +2009,8 @@ class Frame(object):
                     r = self._maybe_inline(lfi, a, [], {}, st, node)
                     if r is not None:
                         return r
+                if isinstance(a, Const) and isinstance(a.value, (str, bytes, bytearray, tuple)):
+                    return Const(len(a.value))
                 return Sym('len(%s)' % render(a))
             if n in ('int', 'bool', 'str') and len(args) == 1 and isinstance(args[0], Const) and \
                     not isinstance(args[0].value, Enum):
@@ -1836,6 +2036,18 @@ class Frame(object):
             if n in ('iter', 'list', 'tuple') and len(args) == 1 and isinstance(args[0], EachV) and not kwargs:
                 record(n)
                 return args[0]
+            if n == 'filter' and len(args) == 2 and not kwargs:
+                fv = self._filter_each(node, args, st)
+                if fv is not None:
+                    record(n)
+                    return fv
+            if n in ('frozenset', 'set', 'tuple', 'list') and len(args) == 1 and not kwargs and isinstance(args[0], ListV) and \
+                    all(isinstance(e, Const) for e in args[0].elems):
+                record(n)
+                return ListV(args[0].elems, 'set' if n in ('set', 'frozenset') else n)     # a literal collection, whatever its container
+            if n == 'iter' and len(args) == 1 and not kwargs and isinstance(args[0], Const) and isinstance(args[0].value, (tuple, list, bytes, bytearray)):
+                record(n)
+                return args[0]          # iterating iter(<literal sequence>) is iterating the sequence
             if n in ('iter', 'list', 'tuple') and len(args) == 1 and isinstance(args[0], ListV) and not kwargs:
                 record(n)
                 return ListV(list(args[0].elems), 'tuple' if n == 'tuple' else 'list')
@@ -1865,12 +2077,47 @@ class Frame(object):
         record(ftext)
         return Sym('%s(%s)' % (ftext, self._argtext(args, kwargs)))
 
+    def _filter_each(self, node, args, st):
+        """filter(lambda v: c, it) / filter(<one-expression local function>, it) is the comprehension (v for v in it if c)."""
+        pred = node.args[0]
+        lam = None
+        if isinstance(pred, ast.Lambda):
+            lam = (pred.args, pred.body)
+        elif isinstance(args[0], Sym) and args[0].text.startswith('lambda '):
+            try:
+                x = ast.parse(args[0].text, mode='eval').body
+                lam = (x.args, x.body)
+            except SyntaxError:
+                lam = None
+        elif isinstance(args[0], FuncV) and args[0].fi.cls is None:
+            body = [b for b in args[0].fi.node.body if not (isinstance(b, ast.Expr) and isinstance(b.value, ast.Constant))]
+            if len(body) == 1 and isinstance(body[0], ast.Return) and body[0].value is not None:
+                lam = (args[0].fi.node.args, body[0].value)
+        if lam is None or len(lam[0].args) != 1 or lam[0].vararg or lam[0].kwarg or lam[0].kwonlyargs or lam[0].defaults:
+            return None
+        if not hasattr(self, 'lambda_index'):
+            self.lambda_index = {}
+        k = self.lambda_index.setdefault(id(node), len(self.bindex) + len(self.lambda_index) + 1)
+        bname = '$%d' % k if self.depth == 0 else '$%d.%d' % (self.depth, k)
+        s2 = st.fork()
+        s2.env[lam[0].args[0].arg] = Sym(bname, nonnull=True)
+        cond = self.cond_text(lam[1], s2)
+        it = render(args[1])
+        st.bound[bname] = it
+        return EachV(bname, '%s if %s' % (it, cond), [Sym(bname)])
+
     def _argtext(self, args, kwargs):
         parts = [render(a) for a in args] + ['%s=%s' % (k, render(v)) for k, v in kwargs.items()]
         return ', '.join(parts)
 
     def _opaque_call(self, ftext, args, kwargs, recv, meth):
         self.I.unresolved_calls += 1
+        if isinstance(recv, Const) and isinstance(recv.value, str) and meth in PURE_STR_METHODS and not kwargs and \
+                all(isinstance(a, Const) and isinstance(a.value, (str, int)) and not isinstance(a.value, Enum) for a in args):
+            try:
+                return Const(getattr(recv.value, meth)(*[a.value for a in args]))      # constant folding of a pure str method
+            except Exception:
+                pass
         at = self._argtext(args, kwargs)
         base = render(recv)
         # transparent wrappers: bytes(x) etc. are handled elsewhere; here a few text-preserving methods
@@ -2028,6 +2275,55 @@ def _positional(fi, args, kwargs, bound):
     return args, kwargs
 
 
+NEGOPS = {'==': '!=', '!=': '==', 'in': 'not in', 'not in': 'in', 'is': 'is not', 'is not': 'is'}
+
+
+def _fact_literal(f):
+    """Text of one path decision (cond_text, value, skeleton) as a condition that holds on the path."""
+    t, val, sk = f
+    if val:
+        return t
+    if sk is not None and sk[0] == 'not' and t.startswith('not '):
+        return t[4:]
+    if sk is not None and sk[0] == 'cmp' and sk[1] in NEGOPS and t == '(%s %s %s)' % (sk[2], sk[1], sk[3]):
+        return '(%s %s %s)' % (sk[2], NEGOPS[sk[1]], sk[3])
+    return 'not %s' % t
+
+
+def path_filter(factlists):
+    """' if c1 if c2' for the disjunction of the given paths (each a list of decisions); None when a decision is not a condition
+    of the element (exception edges).  Paths that differ in the value of one decision only are merged first."""
+    paths = []
+    for fl in factlists:
+        if any(len(f) < 3 or f[2] is None for f in fl):
+            return None
+        p = [(f[0], bool(f[1]), _fact_literal(f)) for f in fl]
+        if p not in paths:
+            paths.append(p)
+    changed = True
+    while changed and len(paths) > 1:
+        changed = False
+        for i in range(len(paths)):
+            for j in range(i + 1, len(paths)):
+                a, b = paths[i], paths[j]
+                if len(a) == len(b):
+                    diff = [k for k in range(len(a)) if a[k][:2] != b[k][:2]]
+                    if len(diff) == 1 and a[diff[0]][0] == b[diff[0]][0]:
+                        merged = a[:diff[0]] + a[diff[0] + 1:]
+                        paths = [p for k, p in enumerate(paths) if k not in (i, j)]
+                        if merged not in paths:
+                            paths.append(merged)
+                        changed = True
+                        break
+            if changed:
+                break
+    if any(not p for p in paths):
+        return ''
+    if len(paths) == 1:
+        return ''.join(' if ' + lit for _, _, lit in paths[0])
+    return ' if (%s)' % ' or '.join('(%s)' % ' and '.join(lit for _, _, lit in p) if len(p) > 1 else p[0][2] for p in paths)
+
+
 def _preorder(node):
     yield node
     for ch in ast.iter_child_nodes(node):
@@ -2076,6 +2372,9 @@ def normalise_path(p):
     """Aliases decided from the class table once (ParentRef.parent returns _parent)."""
     return p.replace('.parent.', '._parent.') if '.parent.' in p else (p[:-7] + '._parent' if p.endswith('.parent') else p)
 
+
+PURE_STR_METHODS = ('startswith', 'endswith', 'find', 'rfind', 'index', 'count', 'lower', 'upper', 'strip', 'lstrip', 'rstrip',
+                    'isupper', 'islower', 'isdigit', 'isalpha', 'isalnum', 'isspace', 'replace', 'title', 'capitalize')
 
 OPS = {ast.Add: '+', ast.Sub: '-', ast.Mult: '*', ast.Div: '/', ast.FloorDiv: '//', ast.Mod: '%', ast.Pow: '**',
        ast.LShift: '<<', ast.RShift: '>>', ast.BitOr: '|', ast.BitAnd: '&', ast.BitXor: '^', ast.MatMult: '@',
